@@ -83,6 +83,29 @@ def w_bytes(arg):
     return acc.res()
 
 
+def w_vanish(arg):
+    """frames whose running remainder vanishes part-way through the division: a valid codeword of k + 3 bytes (any k
+    data bytes H followed by their own parity) continued by an arbitrary tail.  Any shortcut a division routine takes on a
+    zero window / zero remainder (skipping ahead, early exit) is taken on exactly these frames, at every byte position."""
+    n, seed = arg
+    nb = n // 8
+    acc = Acc()
+    rng = random.Random(seed * 77 + n)
+    for k in range(1, nb - 2):
+        heads = [1, (1 << (8 * k)) - 1, int("A5" * k, 16), int("8D" + "40" * (k - 1), 16) if k > 1 else 0x8D] + [rng.getrandbits(8 * k) | 1 for _ in range(6)]
+        rest = nb - k - 3
+        for H in heads:
+            cw = (H << 24) | R.parity(H, 8 * k)
+            tails = [0, (1 << (8 * rest)) - 1, 1, 0x5A, 1 << (8 * rest - 1) if rest else 0] + [rng.getrandbits(8 * rest) for _ in range(3)] if rest else [0]
+            for t in tails:
+                _judge_frame(acc, ("crc", "legacy"), (cw << (8 * rest)) | t, n)
+                h = R.hexf((cw << (8 * rest)) | t, n)
+                acc.n += 1
+                if pms.crc(h, encode=True) != R.parity(((cw << (8 * rest)) | t) >> 24, n - 24):
+                    acc.bad("crc:encode_depends_only_on_data:len%d" % n, {"kind": "enc", "fn": "crc", "msg": h})
+    return acc.res()
+
+
 def _data_corpus(n, seed):
     nd = n - 24
     out = [0, (1 << nd) - 1, int("55" * (nd // 8), 16), int("AA" * (nd // 8), 16)]
@@ -290,14 +313,14 @@ DISPATCH = {}
 def w_any(t):
     name, arg = t
     if not DISPATCH:
-        DISPATCH.update(weight=w_weight, bytes=w_bytes, encode=w_encode, conf=w_conf, model=w_model, seq=w_seq)
+        DISPATCH.update(weight=w_weight, bytes=w_bytes, encode=w_encode, conf=w_conf, model=w_model, seq=w_seq, vanish=w_vanish)
     r = DISPATCH[name](arg)
     r["c"]["impl_calls_" + name] = r["c"].get("impl_calls_" + name, 0) + (0 if name == "model" else r["n"])
     return r
 
 
 def run(ctx):
-    DISPATCH.update(weight=w_weight, bytes=w_bytes, encode=w_encode, conf=w_conf, model=w_model, seq=w_seq)
+    DISPATCH.update(weight=w_weight, bytes=w_bytes, encode=w_encode, conf=w_conf, model=w_model, seq=w_seq, vanish=w_vanish)
     fns = ("crc", "crc_legacy")
     maxw = 4 if ctx.thorough else 3
     tasks = [("model", "bursts"), ("model", 112), ("model", 56)]
@@ -313,6 +336,7 @@ def run(ctx):
             for i0 in range(n - w + 1):
                 tasks.append(("weight", (n, w, i0, fns if w <= 3 else ("crc",))))
     tasks += [("weight", (n, 0, 0, fns)) for n in LENS]
+    tasks += [("vanish", (n, ctx.seed + j)) for n in LENS for j in range(8 if ctx.thorough else 2)]
     tasks += [("bytes", t) for t in bt if t[2] is None]
     for n in LENS:
         dc = _data_corpus(n, ctx.seed)
